@@ -27,14 +27,14 @@ let run_keyspec parts =
   "spec=" ^ (if not det then "FAIL:nondeterministic" else if ok then "ok" else "FAIL:keys")
 
 (* addresses: 4<8 hex digits> | 6<32 hex digits> | x *)
-let addr_of (s : string) : addr option =
+let addr_of (s : string) : nl_addr option =
   if s = "x" || s = "" then None
   else begin
     let v = n_of_bytes (bytes_of_hex (String.sub s 1 (String.length s - 1))) in
-    if s.[0] = '4' then Some (A4 v) else Some (A6 v)
+    if s.[0] = '4' then Some (NlA4 v) else Some (NlA6 v)
   end
 
-(* lines: b | x | r/<addr>/<addr>/<label hex> separated by ';' *)
+(* lines: b | x | r/<nl_addr>/<nl_addr>/<label_cm hex> separated by ';' *)
 let lines_of (s : string) : mline list =
   List.map (fun t ->
     if t = "b" then MBlank else if t = "x" then MBad
@@ -79,11 +79,11 @@ let parse_op (s : string) : op list =
 let run_cache parts =
   let f = fields parts in
   let ops = List.concat_map parse_op (split_on ',' (fld f "ops")) in
-  match big_run ops init with
+  match big_run ops cm_init with
   | None -> "MODEL-STUCK"
   | Some s ->
     let outs = List.filter_map (fun e -> match e with
-      | EvHit (_, v) -> Some ("H" ^ hex_of_bytes v) | EvMiss _ -> Some "M" | EvStore _ -> None) (returns s) in
+      | CmHit (_, v) -> Some ("H" ^ hex_of_bytes v) | CmMiss _ -> Some "M" | CmStore _ -> None) (returns s) in
     if outs = [] then "r=-" else "r=" ^ String.concat "," outs
 
 (* canonical message dump (same format as harness/cmd/implrun/codec.go dumpMsg), TTLs masked *)
